@@ -210,17 +210,24 @@ def FiberIn.leaderRows (f : FiberIn) : List TRow :=
 def groupRows (g : List FiberIn) : List TRow × List TRow :=
   (g.flatMap (fun f => f.rows.1), g.flatMap (fun f => f.rows.2))
 
-/-- what successive `consumeTrace` calls return when the trace is consumed after each
-    group: the header (written when the rank is registered) comes with the first group -/
-def batchesOf (n : Nat) (groups : List (List FiberIn)) : List (List TRow × List TRow) :=
-  match groups.map groupRows with
+/-- what successive `consumeTrace` calls return when the traces are consumed after each
+    group of consecutive fibers.  A group may be empty (two consumptions with no intersection
+    in between).  The header is written when the rank is registered, i.e. when the first
+    intersection starts: it comes with the first non-empty group, consumptions before that
+    return nothing at all. -/
+def batchesOf (n : Nat) : List (List FiberIn) → List (List TRow × List TRow)
   | [] => []
-  | (t0, t1) :: r => (TRow.hdr (2 * n + 1) :: t0, TRow.hdr (2 * n + 1) :: t1) :: r
+  | [] :: r => ([], []) :: batchesOf n r
+  | (f :: g) :: r =>
+    (TRow.hdr (2 * n + 1) :: (groupRows (f :: g)).1, TRow.hdr (2 * n + 1) :: (groupRows (f :: g)).2)
+      :: r.map groupRows
 
-def leaderBatchesOf (n : Nat) (groups : List (List FiberIn)) : List (List TRow) :=
-  match groups.map (fun g => g.flatMap FiberIn.leaderRows) with
+def leaderBatchesOf (n : Nat) : List (List FiberIn) → List (List TRow)
   | [] => []
-  | t :: r => (TRow.hdr (2 * n + 1) :: t) :: r
+  | [] :: r => [] :: leaderBatchesOf n r
+  | (f :: g) :: r =>
+    (TRow.hdr (2 * n + 1) :: (f :: g).flatMap FiberIn.leaderRows)
+      :: r.map (fun g => g.flatMap FiberIn.leaderRows)
 
 /-! ### Specifications (independent of traces: merges of the raw coordinate lists) -/
 
